@@ -192,6 +192,21 @@ CHECKS = {
         "bounds": {"quick": "token depth 6", "thorough": "token depth 7; plus prebuilt formats with separators (parts a, b)"},
         "assumptions": COMMON_ASSUME + ["runs with no digit on either side inside their component, and separators outside the digit components (next to the exponent sign) are not judged"],
     },
+    "C15": {
+        "bin": "c15",
+        "quick": cfgs(["dflt", "rdxfmt"], features="catalogue"),
+        "thorough": cfgs(["dflt", "cmp", "fmt", "rdxfmt", "cmprdxfmt"], features="catalogue"),
+        "rule": "parse: 245 option triples (nan x inf x infinity from {default, None, 1 letter, other case, 50 letters, equal strings, inf a prefix of "
+                "infinity}) x formats {STANDARD, no_special, case_sensitive_special, special_digit_separator and their valid combinations} x inputs near "
+                "every configured and default special string (every prefix, one trailing byte from {x,0,i,n,_,.,e,y}, every single case flip, all upper / "
+                "lower, every single substitution by @ ` [ { 0, a separator run of length 1 and 2 at every position) x sign {none,+,-} x {f32,f64} x "
+                "{complete, partial}; the reference matcher decides NaN / infinity / neither, sign of infinity; a partial special result must come from a "
+                "real match of the consumed prefix; every numeric string over {+,-,0,1,9,.,e,E} up to depth L never yields NaN and keeps the sign of zero. "
+                "write: +-0, +-inf, quiet/signalling/negative NaNs x nan/inf option strings incl. None: exact bytes, NaN never signed, a disabled special "
+                "panics; non-trivial = inputs that equal a configured special string",
+        "bounds": {"quick": "numeric depth 6", "thorough": "numeric depth 7"},
+        "assumptions": COMMON_ASSUME,
+    },
 }
 
 # properties not claimed (reason). Kept current by hand.
